@@ -3,6 +3,11 @@
 import json, os
 V = "/verif"
 CHECKS = {
+ "C18": dict(cat="exploration",
+   text="Reasoner::backward_chaining against an independent least-fixpoint model with derivation heights: soundness (every answer ground and entailed), completeness for every matching fact of height <= 10, renaming invariance over 2-3 renamings of the goal's variables (names from the v<n> family included); parts: acyclic programs (a third with filters), 2880 enumerated chain programs of height 1..11 (depth boundary), random recursive programs (19 rule shapes), filter programs",
+   note="trusted: reading of the depth guard (depth > 10 per rule nesting); filter semantics restricted to =/!= between variables and numeric comparison on integer-named individuals, judged only where forward chaining agrees with the oracle; programs above an SLD-size estimate of 8000 are dropped and counted",
+   tech="property-based differential testing (proptest) + bounded enumeration against a least-fixpoint oracle; metamorphic renaming relation"),
+
  "C11": dict(cat="exploration",
    text="engines built through RSPBuilder from generated RSP-QL text with 2-3 windows on distinct streams, per-window blocks over a shared vocabulary, optional static patterns/data, policies Wait/Steal/Timeout, single- and multi-thread mode; one probe window per configured window records every content that window reported; every emitted row restricted to the variables of block k must be a reference-BGP answer of block k over SOME content window k reported so far, and its static part an answer of the static patterns over the static data alone",
    note="trusted: probe windows and the reference BGP evaluator; the oracle is existential over past firings of the same window, hence sound for every synchronisation policy (it does not decide WHICH content must be used); multi-thread runs only perturb, they do not enumerate schedules; known finding C11-F1 (one shared store for all windows) is excluded through its own signature only",
